@@ -10,7 +10,7 @@ package main
 //     "zeroBased" (it goes through bid.ToBidInStore()), "oneBased" (the 1-based bid itself) or "other";
 //   - (*BoardID_t).IsValid: the length bounds, the start of the loop, the index expression of the byte read
 //     inside the loop classified as "b[idx]" (the loop variable) / "b[0]" (a constant) / "other", and the
-//     extra characters compared with `ch != '<c>'`;
+//     extra characters the tested byte is compared with (`ch != '<c>'` or `ch == '<c>'`);
 //   - the calls of ptt.NewBoard, ptt.mNewbrd and ptt.addBoardRecord in source order (which check precedes
 //     which side effect is a fact of the source).
 
@@ -287,7 +287,7 @@ func init() {
 					}
 				}
 			case *ast.BinaryExpr:
-				if e.Op == token.NEQ {
+				if e.Op == token.NEQ || e.Op == token.EQL {
 					if tv, ok := pts.TypesInfo.Types[e.Y]; ok && tv.Value != nil && tv.Value.Kind() == constant.Int {
 						extra = append(extra, tv.Value.ExactString())
 					}
